@@ -232,11 +232,15 @@ type BoolArg struct {
 }
 
 func (a *BoolArg) Parse() error {
-	b, e := strconv.ParseBool(string(a.arg))
-	if e != nil {
-		return e
+	// boolean-arg = true-keyword / false-keyword, nothing else
+	switch string(a.arg) {
+	case "true":
+		a.b = true
+	case "false":
+		a.b = false
+	default:
+		return &strconv.NumError{Func: "ParseBool", Num: string(a.arg), Err: strconv.ErrSyntax}
 	}
-	a.b = b
 	return nil
 }
 
